@@ -38,6 +38,7 @@ func specC01() *propertySpec {
 			{"C01-R9", "presented-case-sees-the-same-generator: the reproduction, every shrink attempt and the final replay draw from the generator the failing run drew from: no draw stores through or hands out generator-owned storage (shared with C15-R3)", ruleC15R3},
 			{"C01-R10", "no-failure-from-an-empty-rejected-attempt: a rejected attempt that drew nothing is not turned into a panic by endGroup's assertion on either stream kind (the search stream does not record, the reproduction does: a one-sided assertion is a 'flaky' report) (shared with C13-R6)", ruleEndGroupAssertExempt},
 			{"C01-R11", "an-invalid-case-is-not-a-falsification: an invalidData panic (Skip, exhausted filter, overrun) is not replaced on its way up by the assertion of a deferred endGroup (shared with C13-R9)", ruleNoDeferredEndGroup},
+			{"C01-R12", "never-flaky-for-a-deterministic-property: checkTB calls a test flaky when the traceback of the error found differs from that of the error shrink returns; shrink returns the error of the last accepted candidate, and accept takes a candidate only if it fails with the traceback of the failure being minimised (shared with C05-R1)", ruleC05R1},
 		},
 	}
 }
@@ -459,9 +460,17 @@ func ruleC05R1(r *Run) {
 	bufP := paramNamed(fn, "buf")
 	// the comparison
 	var cmp *ssa.Call
+	smallerOp := "<" // compareData(buf, best) < 0, or — the comparator being antisymmetric (C05-R2) — compareData(best, buf) > 0
+	// (the guard is the comparison that comes first; the one after prune() belongs to the assertion checked below)
 	for _, cs := range p.callsTo(fn, "compareData") {
+		c, isCall := cs.Instr.(*ssa.Call)
+		if !isCall || (cmp != nil && !dominates(c, cmp)) {
+			continue
+		}
 		if p.resolve(cs.Arg(0)) == ssa.Value(bufP) && p.expr(cs.Arg(1)) == "$s.rec.data" {
-			cmp = cs.Instr.(*ssa.Call)
+			cmp, smallerOp = c, "<"
+		} else if p.resolve(cs.Arg(1)) == ssa.Value(bufP) && p.expr(cs.Arg(0)) == "$s.rec.data" {
+			cmp, smallerOp = c, ">"
 		}
 	}
 	if cmp == nil {
@@ -523,7 +532,7 @@ func ruleC05R1(r *Run) {
 	}
 	for _, st := range append(append([]*ssa.Store{}, recStores...), errStores...) {
 		what := p.expr(st.Addr)
-		smaller := holds(p.facts(st), cmpKey, "<", "0")
+		smaller := holds(p.facts(st), cmpKey, smallerOp, "0")
 		r.Check("(*shrinker).accept#store."+what+".smaller", st.Pos(), smaller && dominates(cmp, st), "written only after the candidate compared strictly smaller than the current best", what+" is written without the guard compareData(buf, s.rec.data) < 0: minimisation can move to an equal or larger test case (no termination guarantee)")
 		okTB, bo := tbGuard(st)
 		r.Check("(*shrinker).accept#store."+what+".same-failure", st.Pos(), okTB && bo != nil && dominates(bo, st), "written only after the candidate's run produced the same traceback as the current failure", what+" is written without the guard traceback(err1) == traceback(s.err): minimisation can move to a different failure")
@@ -595,7 +604,7 @@ func ruleC05R1(r *Run) {
 			}
 		}
 		okTB, _ := tbGuard(ret)
-		r.Check("(*shrinker).accept#return-true", ret.Pos(), okSame && okTB && holds(p.facts(ret), cmpKey, "<", "0"), "accept reports success only for a strictly smaller candidate that failed the same way twice", "accept can return true without sameError(err1, err2) / same traceback / strictly smaller")
+		r.Check("(*shrinker).accept#return-true", ret.Pos(), okSame && okTB && holds(p.facts(ret), cmpKey, smallerOp, "0"), "accept reports success only for a strictly smaller candidate that failed the same way twice", "accept can return true without sameError(err1, err2) / same traceback / strictly smaller")
 	}
 	r.Floor("successful returns of accept", nTrue, 1)
 }
@@ -616,7 +625,9 @@ func ruleC05R2(r *Run) {
 		}
 		n++
 		facts := p.facts(ret)
-		sameLen := holds(facts, la, ">=", lb) && holds(facts, la, "<=", lb)
+		sameLen := (holds(facts, la, ">=", lb) && holds(facts, la, "<=", lb)) || holds(facts, la, "==", lb)
+		longer := holds(facts, la, ">", lb) || (holds(facts, la, ">=", lb) && holds(facts, la, "!=", lb))
+		shorter := holds(facts, la, "<", lb) || (holds(facts, la, "<=", lb) && holds(facts, la, "!=", lb))
 		elemLess, elemGreater := false, false
 		for _, f := range facts {
 			if strings.HasPrefix(f.X, "$b[") && strings.HasPrefix(f.Y, "$a[") {
@@ -633,10 +644,10 @@ func ruleC05R2(r *Run) {
 		}
 		switch c {
 		case -1:
-			ok := holds(facts, la, "<", lb) || (sameLen && elemLess)
+			ok := shorter || (sameLen && elemLess)
 			r.Check("compareData#return-1", ret.Pos(), ok, "-1 exactly when a is shorter, or equally long and smaller at the first difference", "compareData returns -1 under "+factsStr(facts)+": not a shortlex 'less'")
 		case 1:
-			ok := holds(facts, la, ">", lb) || (sameLen && elemGreater)
+			ok := longer || (sameLen && elemGreater)
 			r.Check("compareData#return+1", ret.Pos(), ok, "1 exactly when a is longer, or equally long and larger at the first difference", "compareData returns 1 under "+factsStr(facts)+": not a shortlex 'greater'")
 		case 0:
 			// after the element loop only
@@ -1086,6 +1097,8 @@ func ruleC05R6(r *Run) {
 			return true, ""
 		case *ssa.Slice:
 			return rootOK(x.X, d+1)
+		case *ssa.MakeSlice:
+			return true, "" // a fresh allocation (filled by copy)
 		}
 		return false, p.expr(v)
 	}
